@@ -41,7 +41,7 @@ def _sel(rng, n, kind=None):
 
 
 def _case(rng, malformed=False):
-    spec = pfile.gen_file(rng)
+    spec = pfile.drop_fill_attrs(rng, pfile.gen_file(rng))
     dl = {d[0]: d[1] for d in spec['dims']}
     names = list(dl)
     k = rng.randint(1, min(3, len(names)))
@@ -164,6 +164,12 @@ def _impl_ioapi(case):
             op = c10.resolve(case['c10']['recipes'][0], f)
             if op[0] != 'slice':
                 return dict(skip=True, op=op)
+            # descriptive attributes that differ from what the IOAPI conventions would regenerate from the key
+            for k, v in f.variables.items():
+                if k != 'TFLAG' and 'TSTEP' in v.dimensions and case['c10']['src']['kind'] != 'disk':
+                    v.long_name = ('Descr ' + k)[:16].ljust(16)
+                    v.note = 'kept with ' + k
+            srcattrs = {k: {a: getattr(v, a) for a in v.ncattrs()} for k, v in f.variables.items()}
             try:
                 with np.errstate(all='ignore'):
                     g = c10.apply_op(f, op)
@@ -196,6 +202,15 @@ def _impl_ioapi(case):
                     bad = 'variable %s after %s: shape %s, orthogonal selection gives shape %s%s' % (
                         k, op, got.shape, a.shape, '' if got.shape != a.shape else ' with other values')
                     break
+                if k != 'TFLAG':
+                    gv = g.variables[k]
+                    for an, av in srcattrs[k].items():
+                        if an not in gv.ncattrs() or str(getattr(gv, an)) != str(av):
+                            bad = 'variable %s after %s: attribute %s was %r, is %r' % (
+                                k, op, an, av, getattr(gv, an, None))
+                            break
+                    if bad:
+                        break
             return dict(op=op, bad=bad)
         finally:
             if path and os.path.exists(path):
@@ -211,7 +226,7 @@ def impl(case):
         try:
             with lib.pnc_warnings():
                 o = slice_dim(f, case['text'])
-            return dict(obs=pfile.observe(o))
+            return dict(obs=pfile.observe(o, spec=case['spec']))
         except Exception as e:
             return dict(err=type(e).__name__, msg=str(e)[:100])
     f = pfile.build(case['spec'])
@@ -219,7 +234,7 @@ def impl(case):
     try:
         with lib.pnc_warnings():
             o = f.sliceDimensions(newdims=('POINTS',), **kw)
-        return dict(obs=pfile.observe(o))
+        return dict(obs=pfile.observe(o, spec=case['spec']))
     except Exception as e:
         return dict(err=type(e).__name__, msg=str(e)[:100])
 
